@@ -37,6 +37,7 @@ func cmdRun(args []string) {
 	smtlog := fs.String("smtlog", "", "write solver input to file")
 	ua := fs.Bool("unwind-assume", false, "prune instead of fail at unwind limit")
 	merge := fs.String("merge", "", "comma separated functions to summarise")
+	lazy := fs.Bool("lazy", false, "lazy feasibility")
 	fs.Parse(args)
 	ld, err := loadProgram([]string{*pkg, zlintMod + "/zzverif"}, nil)
 	if err != nil {
@@ -47,6 +48,7 @@ func cmdRun(args []string) {
 	p := ld.Pkg(*pkg)
 	cfg := defaultConfig()
 	cfg.Solver, cfg.Unwind, cfg.ListBound, cfg.ByteBound, cfg.UnwindAssume = *solver, *unwind, *list, *bytesB, *ua
+	cfg.LazyFeas = *lazy
 	for _, m := range strings.Split(*merge, ",") {
 		if m != "" {
 			cfg.Merge[m] = true
